@@ -26,6 +26,10 @@ CHECKS = {
    technique="explicit-state BFS over reader/writer/pruning-policy event histories on the real versioned and B-tree zones, with reflection-driven enumeration of the mutator surface reachable from a snapshot",
    text="BFS (depth 7 quick / 9 thorough, canonical state = retained versions with relative ids and content, pinned ids, policy, pending writer ops) over histories of reader open (latest / by id / by serial, incl. missing), reader close, writer begin/op/commit/rollback, set_max_versions and custom pruning policies; in every state every open reader's full read API is compared with the content recorded when its version was committed, ids must increase, retained versions must be a contiguous run containing the newest and all pinned versions and, at every pruning trigger, exactly the reference deque; at states up to depth 4-5 every mutator found by reflection on the version, map, nodes, rdatasets, rdatas, names and on objects handed out by the transaction API must raise and leave the snapshot unchanged.",
    note="Single-threaded histories (schedules are C12); <= 2-3 open readers and commits; for B-tree-backed maps/sets only the public mapping/set API is demanded to raise (private attributes of a frozen BTreeDict are not attribute-immutable by design)."),
+ "C20": dict(level="model_checking", ref="DESIGN.md §2 C20",
+   technique="explicit-state BFS over committed-transaction histories on the real B-tree zone with derived state in the canonical form, compared with a from-content reference; exhaustive load-order enumeration",
+   text="BFS (depth 3 quick / 4 thorough) over histories of committed transactions adding/removing NS, A, DS rdatasets and whole nodes at apex, a, b.a, c.b.a, d, x.d (nested cuts, glue, names spelled relative and absolute) on relativized and absolute dns.btreezone.Zone; canonical form = content + flags + delegation index, so history-dependent derived state appears as extra states; in every state flags, index, iteration order and bounds() for 26 query names in both spellings equal a reference recomputed from content alone; every load order of every record set of <= 4-5 records from an 8-record pool is checked the same way.",
+   note="6 names, 3 record kinds; derived-state definitions taken from the property statement and btreezone docstrings; bounded history depth."),
 }
 ALL = ["C%02d" % i for i in range(1, 21)]
 m = {
